@@ -19,7 +19,7 @@ type GenOptions struct {
 	SharedReceivers  bool    // also draw receivers from kshared/1..2 (one underlying component for all signals)
 	NonMutatingProcs float64 // probability that a processor is configured mutates:false
 	ConnModes        bool    // same-signal connector instances may use mode mutate / pass
-	RouteTo          float64 // probability that a connector with >= 2 destination pipelines routes to a subset
+	RouteTo          float64 // probability that a connector with >= 2 destination pipelines of a signal gets a route (class drawn from RouteClasses)
 	FailingExporters float64 // probability that an exporter is configured fail:true
 	ExporterModes    bool    // randomise exporter mutates / async / keep / read_async (C06)
 	MaxExtensions    int     // 0: none; else 0..MaxExtensions extensions with a random dependency DAG
@@ -271,12 +271,14 @@ func GenTopology(rng *rand.Rand, o GenOptions) *Topology {
 			if cfg == nil {
 				cfg = map[string]any{}
 			}
-			if _, done := cfg["route_to"]; !done {
-				var ids []string
-				for _, q := range ci.Dests[:1+rng.Intn(len(ci.Dests)-1)] {
-					ids = append(ids, t.Pipelines[q].ID())
-				}
-				cfg["route_to"] = ids
+			routes, _ := cfg["routes"].(map[string]any)
+			if routes == nil {
+				routes = map[string]any{}
+			}
+			if _, done := routes[string(ci.To)]; !done { // one route per (connector id, destination signal)
+				class := RouteClasses[rng.Intn(len(RouteClasses))]
+				routes[string(ci.To)] = MakeRoute(rng, class, t, ci)
+				cfg["routes"] = routes
 			}
 		}
 		t.Connectors[ci.ID] = cfg
@@ -305,4 +307,64 @@ func GenTopology(rng *rand.Rand, o GenOptions) *Topology {
 		}
 	}
 	return t
+}
+
+// RouteClasses are the kinds of routes a routing connector with N >= 2 downstream pipelines requests.
+//
+//	full        all N downstream pipelines, distinct
+//	subset      1..N-1 distinct downstream pipelines
+//	repeated    exactly N entries, all downstream pipelines of the instance, at least one repeated
+//	unconnected exactly N entries, one of them a pipeline the instance is not connected to: another
+//	            pipeline of the destination signal, a pipeline of another signal, or a name that does
+//	            not exist (the router must refuse)
+//	empty       no entry (the router must refuse)
+var RouteClasses = []string{"full", "subset", "repeated", "unconnected", "empty"}
+
+// MakeRoute builds a route of the class for a connector instance with at least 2 downstream pipelines.
+func MakeRoute(rng *rand.Rand, class string, t *Topology, ci ConnInst) []string {
+	var dests []string
+	for _, q := range ci.Dests {
+		dests = append(dests, t.Pipelines[q].ID())
+	}
+	n := len(dests)
+	perm := func() []string {
+		out := make([]string, 0, n)
+		for _, i := range rng.Perm(n) {
+			out = append(out, dests[i])
+		}
+		return out
+	}
+	switch class {
+	case "subset":
+		return perm()[:1+rng.Intn(n-1)]
+	case "repeated":
+		base := perm()[:1+rng.Intn(n-1)] // the distinct ids used; the rest of the N entries repeat them
+		out := append([]string(nil), base...)
+		for len(out) < n {
+			out = append(out, base[rng.Intn(len(base))])
+		}
+		rng.Shuffle(n, func(i, j int) { out[i], out[j] = out[j], out[i] })
+		return out
+	case "unconnected":
+		var cand []string
+		for _, p := range t.Pipelines {
+			if !contains(dests, p.ID()) {
+				cand = append(cand, p.ID())
+			}
+		}
+		cand = append(cand, string(ci.To)+"/nosuch", string(ci.To))
+		var bad string
+		for _, i := range rng.Perm(len(cand)) {
+			if !contains(dests, cand[i]) {
+				bad = cand[i]
+				break
+			}
+		}
+		out := append(perm()[:n-1], bad)
+		rng.Shuffle(n, func(i, j int) { out[i], out[j] = out[j], out[i] })
+		return out
+	case "empty":
+		return []string{}
+	}
+	return perm()
 }
